@@ -270,6 +270,18 @@ func c13Property(t *rapid.T) {
 			}
 			r.cur[a].balance = new(big.Int).Set(v)
 		},
+		"suicide": func(t *rapid.T) {
+			// what the EVM's SELFDESTRUCT calls: the balance is gone, everything else of the account stays readable
+			r.commitPending()
+			a := drawAcct()
+			sd, ok := interface{}(r.l).(interface{ Suiside(*types.Address) bool })
+			if !ok || len(r.cur[a].code) == 0 {
+				t.Skip("only an existing contract destroys itself")
+			}
+			r.logf("Suiside(%d)", a)
+			sd.Suiside(c13Addrs[a])
+			r.cur[a].balance = new(big.Int)
+		},
 		"nonce": func(t *rapid.T) {
 			r.commitPending()
 			a := drawAcct()
